@@ -72,13 +72,6 @@ def Tok.isSplit : Tok → Bool
   | .ver _ (some _) => true
   | _ => false
 
-/-- the whole system: private upper parts per client, shared lower part. -/
-structure Sys where
-  ups : List (List Layer)
-  low : List Layer
-  be : Backend
-  wall : Int
-
 def mkSys (toks : List Tok) : Sys :=
   match toks.findIdx? Tok.isSplit with
   | some i =>
@@ -86,26 +79,9 @@ def mkSys (toks : List Tok) : Sys :=
     { ups := [up.map (Tok.layer 0), up.map (Tok.layer 1)], low := (toks.drop (i + 1)).map (Tok.layer 0), be := ⟨[], 0⟩, wall := 0 }
   | none => { ups := [toks.map (Tok.layer 0)], low := [], be := ⟨[], 0⟩, wall := 0 }
 
-def Sys.path (s : Sys) (c : Nat) : List Layer := (s.ups.getD c []) ++ s.low
-
-def isLru : Layer → Bool
-  | .lru .. => true
-  | _ => false
-
 def isSnap : Layer → Bool
   | .snap => true
   | _ => false
-
-/-- align the observed per-LRU key orders with the layers of a path. -/
-def alignHints : List Layer → List (List Key) → List (List Key)
-  | [], _ => []
-  | l :: ls, hs => if isLru l then hs.headD [] :: alignHints ls hs.tail else [] :: alignHints ls hs
-
-def Sys.apply (cd : Codec) (s : Sys) (c : Nat) (op : Op) (hs : List (List Key)) : Sys × Obs :=
-  let p := s.path c
-  let r := step cd ⟨p, s.be, s.wall⟩ op (alignHints p hs)
-  let n := (s.ups.getD c []).length
-  ({ ups := s.ups.set c (r.1.layers.take n), low := r.1.layers.drop n, be := r.1.be, wall := r.1.wall }, r.2)
 
 /-! ### operations -/
 
@@ -215,8 +191,13 @@ def parseGot (n : Names) (s : String) : Option (Res × String) :=
 
 /-- one step of the judge on the implementation's own observation; `held` = the keys the client's
 in-memory layer held just before the operation (the layer's key list as last observed). -/
-def judgeStep (cfgs : List JCfg) (snaps : List Bool) (m : MJ) (c : Nat) (held : List Key) (op : Op) (obsRes : String) (n : Names) : MJ × List String :=
+def judgeStep (cfgs : List JCfg) (snaps : List Bool) (multi : List (Option (Int × Bool))) (m : MJ) (c : Nat) (held : List Key) (op : Op) (obsRes : String) (n : Names) : MJ × List String :=
   let cfg := cfgs.getD c ⟨false, 0, []⟩
+  -- a path with several in-memory layers is judged by `jstepM` (value, deletion, Add outcome, hard deadline)
+  let jstep := fun (cfg : JCfg) (held : List Key) (j : JSt) (op : Op) (obs : Obs) =>
+    match multi.getD c none with
+    | some (sl, coupled) => jstepM sl coupled j op obs
+    | none => jstep cfg held j op obs
   let j : JSt := ⟨m.specs.getD c [], m.V, m.W⟩
   let fin (q : JSt × List String) (m : MJ) : MJ × List String :=
     ({ m with specs := m.specs.set c q.1.spec, V := q.1.V, W := q.1.W }, q.2)
@@ -286,6 +267,10 @@ def handleOps (f : List String) : String × String × String :=
         let snaps := (List.range nCl).map fun c => (sys0.path c).any isSnap
         let ops := opsS.splitOn ";"
         let obs := obsS.splitOn ";"
+        let oneClock := !((ops.any (·.startsWith "tv")) || (ops.any (·.startsWith "tw")))
+        let multi : List (Option (Int × Bool)) := (List.range nCl).map fun c =>
+          if lruCount (sys0.path c) ≥ 2 then some (slack (sys0.path c), oneClock) else none
+        let nLru := lruCount (sys0.path 0)
         if ops.length != obs.length then ("bad-obs-count", "-", "-") else
         let lruShared := sys0.low.any isLru
         -- two "different" versions that are equal: the clients share their keys by construction and
@@ -305,7 +290,7 @@ def handleOps (f : List String) : String × String × String :=
             let isClock := kind == "tv" ∨ kind == "tw" ∨ kind == "tb"
             let mObs := if isClock then "-" else renderObs n kind r.2 (r.1.path c)
             let d := if mObs == oo.2 then a.diff else a.diff <|> some s!"op{a.idx}:model={mObs}"
-            let jq := judgeStep cfgs snaps a.mj c (a.held.getD c []) op resS n
+            let jq := judgeStep cfgs snaps multi a.mj c (a.held.getD c []) op resS n
             let held' := if isClock then a.held
               else if lruShared then a.held.map fun _ => hs.headD []
               else a.held.set c (hs.headD [])
@@ -319,7 +304,7 @@ def handleOps (f : List String) : String × String × String :=
         let diff := diff <|> (if encs.all (fun p => snappyDecode p.2 == some p.1) then none else some "codec:dec(enc v)≠v")
         let kinds := String.ofList (toks.map fun t => match t with | .lru .. => 'L' | .ver .. => 'V' | .snap => 'S')
         let clk := if (ops.any (·.startsWith "tv")) ∨ (ops.any (·.startsWith "tw")) then "split" else if ops.any (·.startsWith "tb") then "one" else "none"
-        let tags := s!"ops stack={if kinds == "" then "none" else kinds} cl={nCl} n={if ops.length < 10 then "<10" else if ops.length < 40 then "<40" else "40+"} hits={min acc.hits 3} clk={clk}"
+        let tags := s!"ops stack={if kinds == "" then "none" else kinds} cl={nCl} n={if ops.length < 10 then "<10" else if ops.length < 40 then "<40" else "40+"} hits={min acc.hits 3} clk={clk} lru={nLru}"
         (diff.getD "-", if acc.judge.isEmpty ∨ sameVer then "-" else ",".intercalate acc.judge, tags)
       | _, _, _ => ("bad-input", "-", "-")
     | _ => ("bad-field1", "-", "-")
